@@ -112,7 +112,9 @@ def judge(ctx, pid, rejected):
         brief = [{k: v for k, v in e.items() if k in ("ev", "t", "name", "kind", "cid", "outcome", "cls", "value", "status", "none", "dtype", "where", "n")}
                  for e in trace[max(0, b["at"] - 3):b["at"] + 1]]
         scd = {k: v for k, v in sc.items() if k not in ("tid",)}
-        if owner == "harness":
+        if owner.startswith("X"):
+            ctx.remark("DRIFT (extended coverage, not a listed property): %s in scenario family %s" % (why, sc["tid"].rstrip("0123456789_")))
+        elif owner == "harness":
             ctx.machinery_error = "harness inconsistency %s in %s: %s" % (why, sc["tid"], trace[max(0, b["at"] - 2):b["at"] + 1])
         elif owner == pid:
             ctx.deviation(finding_for(ctx, why, sc, trace, b),
@@ -149,9 +151,10 @@ def fam_delivery(rng, tier):
             actions = {}
             if variant >= 1 and rng.random() < 0.6:
                 nm = rng.choice([c for c in cbs if c in ("open", "message", "data", "ping", "pong")] or ["open"])
-                actions = {nm: ["raise"]}
+                actions = {nm: [rng.choice(["raise", "send"])]}
             n += 1
             out.append({"tid": "dlv%d" % n, "conns": [{"events": events}], "run": {}, "callbacks": cbs, "actions": actions,
+                        "send_after_run": n % 4 == 0,
                         "tls": bool(variant % 2) if tier == "thorough" else (n % 3 == 0), "horizon": 60000})
     return out
 
@@ -174,6 +177,14 @@ def fam_endings(rng, tier):
                     if cbs:
                         sc["callbacks"] = cbs
                     out.append(sc)
+    # two runs of one object that end in different ways (nothing of the first run may show in the second)
+    for e1 in ENDINGS:
+        for e2 in ENDINGS:
+            if e1 == e2 or (tier == "quick" and rng.random() < 0.4):
+                continue
+            n += 1
+            out.append({"tid": "end%d" % n, "conns": [{"events": [(10, ("text", "r1")), (20, e1)]}, {"events": [(10, ("ping", b"")), (20, e2)]}],
+                        "run": {}, "runs": 2, "horizon": 90000})
     # refused / rejected / then a clean second run
     for first in ({"accept": False}, {"status": 403}, {"status": 200}):
         for second_end in (("close", 1001, b""), ("eof",)):
@@ -300,6 +311,14 @@ def fam_keepalive(rng, tier):
                 n += 1
                 out.append({"tid": "ka%d" % n, "conns": [{"events": [], "pong": lat}], "run": {"ping_interval": I, "ping_timeout": T},
                             "horizon": (6 * I + 3 * T) * 1000, "send_delay_ms": delay, "pattern": "late_send_return"})
+    # a fragmented message whose parts arrive far apart: pings fall between the fragments and are answered promptly
+    for I, T in ((3, 1), (4, 2), (5, 2), (7, 3)):
+        for lat in (0, 300, T * 1000 - 1):
+            for first_at in (I * 1000 - 500, 2 * I * 1000 - 1, 2 * I * 1000 + 1):
+                n += 1
+                ev = [(first_at, ("part", 1, "he", 0)), (3 * I * 1000 + 700, ("part", 0, "llo", 0)), (2 * I * 1000, ("part", 0, "!", 1))]
+                out.append({"tid": "ka%d" % n, "conns": [{"events": ev, "pong": lat}], "run": {"ping_interval": I, "ping_timeout": T},
+                            "horizon": (9 * I + 3 * T) * 1000, "pattern": "pings_between_fragments"})
     # interval without timeout: pings only; settings that must be refused
     for I in (1, 3):
         n += 1
